@@ -2,6 +2,8 @@
 
 package odt
 
+import "strconv"
+
 // Verification hooks (add-only): read access to the parsed element list in
 // document order, which has no exported accessor.
 
@@ -59,4 +61,85 @@ func (r *Reader) VerifElements() []VerifElem {
 func VerifShouldExcludeParagraph(text string, headerTexts, footerTexts []string, opts ExtractOptions) bool {
 	r := &Reader{headerTexts: headerTexts, footerTexts: footerTexts}
 	return r.shouldExcludeParagraph(text, opts)
+}
+
+// ---- C15: document-level Markdown model ----
+
+// VerifListOrdered is the ordered/bullet decision of (*Reader).writeMarkdownListItem for a
+// non-empty style name: r.styleResolver != nil && !ResolveListLevel(styleName, level).IsBullet.
+func (r *Reader) VerifListOrdered(styleName string, level int) bool {
+	return r.styleResolver != nil && !r.styleResolver.ResolveListLevel(styleName, level).IsBullet
+}
+
+// VerifParagraphCount is len(r.paragraphs) (the second operand of the writers' empty-document test).
+func (r *Reader) VerifParagraphCount() int { return len(r.paragraphs) }
+
+// VerifListLevel says what a list style defines for one 0-based level of a reader built by
+// VerifNewReader: a number level (Ordered) or a bullet level.
+type VerifListLevel struct {
+	StyleName string
+	Level     int
+	Ordered   bool
+}
+
+// VerifMeta is what Metadata() reads of meta.xml; HasMeta false leaves r.meta nil.
+type VerifMeta struct {
+	HasMeta        bool
+	Title          string
+	Creator        string
+	InitialCreator string
+	Subject        string
+	Generator      string
+}
+
+// VerifNewReader builds a Reader (no package behind it) whose r.elements are the given
+// elements in order, whose r.paragraphs has nParas entries, with the given header / footer
+// texts, meta.xml values and list styles (nil levels: styleResolver nil). Only what the
+// Markdown writers read is filled in.
+func VerifNewReader(elems []VerifElem, headerTexts, footerTexts []string, meta VerifMeta, nParas int, levels []VerifListLevel) *Reader {
+	r := &Reader{headerTexts: headerTexts, footerTexts: footerTexts}
+	if meta.HasMeta {
+		r.meta = &metaXML{Meta: &metaInfoXML{Title: meta.Title, Creator: meta.Creator, InitialCreator: meta.InitialCreator,
+			Subject: meta.Subject, Generator: meta.Generator}}
+	}
+	if levels != nil {
+		cs := &contentStylesXML{}
+		byName := map[string]int{}
+		for _, l := range levels {
+			i, ok := byName[l.StyleName]
+			if !ok {
+				i = len(cs.ListStyles)
+				byName[l.StyleName] = i
+				cs.ListStyles = append(cs.ListStyles, listStyleXML{Name: l.StyleName})
+			}
+			lvl := strconv.Itoa(l.Level + 1) // ODF levels are 1-based
+			if l.Ordered {
+				cs.ListStyles[i].NumberLevels = append(cs.ListStyles[i].NumberLevels, listLevelNumberXML{Level: lvl, NumFormat: "1", NumSuffix: "."})
+			} else {
+				cs.ListStyles[i].BulletLevels = append(cs.ListStyles[i].BulletLevels, listLevelBulletXML{Level: lvl, BulletChar: "•"})
+			}
+		}
+		r.contentStyles = cs
+		r.styleResolver = NewStyleResolver(cs, nil)
+	}
+	for _, e := range elems {
+		switch e.Kind {
+		case "p":
+			p := &parsedParagraph{Text: e.Text, StyleName: e.StyleName, IsHeading: e.IsHeading, Level: e.Level,
+				IsListItem: e.IsListItem, ListLevel: e.ListLevel}
+			r.elements = append(r.elements, parsedElement{Type: "paragraph", Paragraph: p})
+		case "tbl":
+			t := &ParsedTable{}
+			for _, row := range e.Rows {
+				pr := ParsedTableRow{}
+				for _, c := range row {
+					pr.Cells = append(pr.Cells, ParsedTableCell{Text: c.Text, ColSpan: c.ColSpan, RowSpan: c.RowSpan, IsCovered: c.Covered})
+				}
+				t.Rows = append(t.Rows, pr)
+			}
+			r.elements = append(r.elements, parsedElement{Type: "table", Table: t})
+		}
+	}
+	r.paragraphs = make([]parsedParagraph, nParas)
+	return r
 }
